@@ -636,6 +636,9 @@ var (
 	// errInvalidTimestamp is returned if the timestamp of a block is lower than
 	// the previous block's timestamp + the minimum block period.
 	errInvalidTimestamp = errors.New("invalid timestamp")
+
+	// errUnauthorizedSigner is returned if a header is signed by a non-authorized entity.
+	errUnauthorizedSigner = errors.New("unauthorized signer")
 )
 
 func verifyHeader(native *native.NativeService, header *types.Header, ctx *Context) (err error) {
@@ -751,6 +754,11 @@ func verifySeal(native *native.NativeService, header *types.Header, ctx *Context
 	snap, lastSeenHeight, err := snapshot(native, header.Number.Uint64()-1, header.ParentHash, signer, ctx)
 	if err != nil {
 		return fmt.Errorf("msc Handler SyncBlockHeader, snapshot err: %v", err)
+	}
+
+	// the signer must be one of the authorized signers at this height
+	if _, ok := snap.Signers[signer]; !ok {
+		return errUnauthorizedSigner
 	}
 
 	if number%ctx.ExtraInfo.Epoch == 0 {
